@@ -48,7 +48,9 @@ impl Scopes {
                 (*self.functions).borrow().iter().map(Arc::clone).collect(),
             )),
             len: Arc::new(Cell::new(self.len())),
-            last_variable_index: self.last_variable_index,
+            // the scopes are shared with the defining environment, which can still declare a
+            // variable that shadows the cached one before the closure runs
+            last_variable_index: None,
         }
     }
 
